@@ -15,7 +15,7 @@ func init() {
 		Technique:   "do/undo pairing (task-data keys) of the interface manager's handler pairs; ordering and guarded-sink rules on the SSA CFG of doConnect, undoConnect, doDisconnect, undoDisconnect (repository effect, profile regeneration, persisted \"conns\" write); who-may-write of the \"conns\" state key",
 		Explanation: "Structural necessary conditions for 'interface connections are transactional: the in-memory repository, the persisted connection state and the security profiles move together': (R1) key agreement of the interface manager's (do, undo) pairs (old-conn etc.); (R2) doConnect persists the connection only after the repository connect and (unless delayed) both profile set-ups succeeded - so a failure leaves nothing persisted - and after the repository connect every failing return runs the deferred repository disconnect; doDisconnect saves old-conn before it mutates or removes anything and before the repository disconnect, and persists only after the repository disconnect and the profile regeneration succeeded; (R3) undoDisconnect reconnects the repository before regenerating the profiles (so they are generated from the restored connection), regenerates both sides, and restores exactly the saved old-conn before persisting; undoConnect restores the saved old-conn or deletes the entry, disconnects the repository, and regenerates both sides' profiles unless the set-up was delayed; (R4) reloadConnections connects only connections that are neither undesired nor hotplug-gone; (R5) the \"conns\" state key is written only through setConns.",
 		NotDecided:  "equality of \"conns\" and the repository after arbitrary histories; the backends' reaction to a setup call; hotplug sequencing.",
-		Run:         func(c *Ctx) { runC22(c); runC22x(c) },
+		Run:         func(c *Ctx) { runC22(c); runC22x(c); runC22z(c) },
 	})
 }
 
